@@ -39,6 +39,7 @@ def check(run: Run, prog: Program, model: Model, tier: str) -> None:
         "keep keys; every other kind reaches the final `raise ValueError`; no other exception class can escape "
         "(explicit raises of inlined callees and partial operations under the established kinds)."
         " Two members deep, the schema of member j is the conversion of member j; a plain value is refused only for a documented trait; the float validator keeps the documented tolerance.")
+    run.explanation += ' The fixed-value comparison of the produced schema class must be on the value and the prop themselves (no image such as value.date()).'
     run.rule_text = ("one obligation per (input kind, clause); non-trivial = needed inlining of the schema constructor / "
                      "element-fact propagation through the comprehension")
     run.trusted += ["partial-operation table", "uuid.UUID.version exists on every UUID"]
@@ -145,6 +146,16 @@ def check(run: Run, prog: Program, model: Model, tier: str) -> None:
                     if vrows and not all(isinstance(r.term, Term) and r.term.op == "eq" and r.polarity is False for r in vrows):
                         probs.append(f"validator of {v.cls.name} does not compare the pinned value exactly ({vrows[0].pred_key[:60]}): "
                                      "values differing from it are accepted")
+                    else:
+                        # ... and what is compared is the validated value itself, not an image of it (value.date(),
+                        # str(value), ...): two values with the same image would both be accepted
+                        for r in vrows:
+                            ops = {a.key() for a in r.term.args if isinstance(a, V)}      # type: ignore[union-attr]
+                            img = sorted(o for o in ops if o not in ("value", "props.value"))
+                            if img:
+                                probs.append(f"validator of {v.cls.name} compares an image of the value ({img[0][:50]}) instead of the "
+                                             "value itself: values of another kind with the same image are accepted")
+                                break
                 from ..values import kind_is
                 if labels and not any(kind_is(kind, lab) or (kind == "UUID" and lab == "UUID") for l in labels for lab in l.split("|")):
                     probs.append(f"validator of {v.cls.name} guards on {sorted(labels)}, which rejects a {kind}")
@@ -222,6 +233,29 @@ def check(run: Run, prog: Program, model: Model, tier: str) -> None:
     _refuses_plain(run, prog, fn, results)
     _key_identity(run, prog, model, fn, results.get("dict", []))
 
+
+
+def native_contract(run: Run, prog: Program, model: Model, tier: str, why: str) -> None:
+    """The substitution analyses summarise from_native by its contract (returns a schema that accepts the very value it
+    was given, or raises ValueError).  The properties that lean on that summary re-derive it here, so a change of the
+    conversion that breaks the contract is reported under the property whose clause it breaks too."""
+    from ..report import HOLDS, UNDECIDED, VIOLATED
+    sub = Run("C14", tier)
+    check(sub, prog, model, tier)
+    n = 0
+    for o in sub.obs:
+        rule = o.rule.split(".", 1)[1]
+        if rule not in ("ARM", "FINAL"):
+            continue
+        n += 1
+        c = f"{o.construct}: conversion contract"
+        if o.status == VIOLATED:
+            run.violated("NATIVE-CONTRACT", c, o.site, f"{o.detail} - {why}", witness=o.witness)
+        elif o.status == UNDECIDED:
+            run.undecided("NATIVE-CONTRACT", c, o.site, o.detail)
+        elif o.status == HOLDS:
+            run.holds("NATIVE-CONTRACT", c, o.site, o.detail, nontrivial=o.nontrivial)
+    run.floor("NATIVE-CONTRACT", 10)
 
 def _memo(run: Run, prog: Program, model: Model, fn: Any, rule: str = "MEMO", roots: Optional[List[Any]] = None,
           prefixes: Tuple[str, ...] = ("d42.utils",)) -> None:
@@ -371,6 +405,9 @@ def _key_identity(run: Run, prog: Program, model: Model, fn: Any, paths: List[Pa
 
 FN = "d42/utils/_from_native.py"
 MUTANTS = [
+    {"name": "date validator compares calendar dates through a helper (seeded C14-J)", "rule": "ARM",
+     "edits": [("d42/validation/_validator.py", "        if error := self._validate_type(path, value, date):\n            return result.add_error(error)\n\n        if schema.props.value is not Nil:\n            if error := self._validate_value(path, value, schema.props.value):",
+                "        if error := self._validate_type(path, value, date):\n            return result.add_error(error)\n\n        if schema.props.value is not Nil:\n            actual = value.date() if isinstance(value, datetime) else value\n            if error := self._validate_value(path, actual, schema.props.value):")]},
     {"name": "members interned per conversion in a dict keyed by the bare value", "rule": "CROSS-MEMBER",
      "edits": [(FN, "def from_native(value: Any) -> GenericSchema:\n    if value is None:", "def from_native(value: Any) -> GenericSchema:\n    return _convert(value, {})\n\n\ndef _convert(value: Any, interned: Any) -> GenericSchema:\n    if value is None:"),
                (FN, "    elif isinstance(value, int):\n        return IntSchema()(value)\n    elif isinstance(value, float):\n        return FloatSchema()(value)\n",
